@@ -1,1 +1,693 @@
-pub fn placeholder() {}
+//! agcdec: an independent reader for AGC v3 archives, written from the format rules only.
+//! It shares no code with ragc (the only dependency is libzstd through the `zstd` crate) and
+//! hard-codes every constant of the format. While decoding it checks the addressing rules a
+//! C++ AGC reader relies on and reports any breach as an error.
+
+use std::collections::{BTreeMap, HashMap};
+
+pub const PACK: usize = 50; // entries per pack
+pub const RAW_GROUPS: u32 = 16; // groups 0..15 hold raw segments
+pub const SEP: u8 = 0xFF; // entry separator inside a pack
+pub const B64: &[u8; 64] = b"0123456789ABCDEFGHIJKLMNOPQRSTUVWXYZabcdefghijklmnopqrstuvwxyz_#";
+
+#[derive(Default, Debug, Clone)]
+pub struct Stats {
+    pub streams: u64,
+    pub parts: u64,
+    pub lz_groups: u64,
+    pub raw_groups_used: u64,
+    pub refs_tuple_packed: u64,
+    pub refs_plain_zstd: u64,
+    pub refs_stored_raw: u64,
+    pub packs_zstd: u64,
+    pub packs_stored_raw: u64,
+    pub full_packs: u64,
+    pub placeholder_packs: u64,
+    pub segments: u64,
+    pub segments_ref: u64,
+    pub segments_delta: u64,
+    pub segments_raw: u64,
+    pub segments_rc: u64,
+    pub lz_literals: u64,
+    pub lz_bangs: u64,
+    pub lz_nruns: u64,
+    pub lz_matches: u64,
+    pub lz_matches_to_end: u64,
+    pub metadata_batches: u64,
+    pub tuple_width: [u64; 5],
+}
+
+#[derive(Debug, Clone, PartialEq)]
+pub struct Seg {
+    pub group: u32,
+    pub in_group: u32,
+    pub rc: bool,
+    pub raw_len: u32,
+}
+
+pub struct Decoded {
+    pub k: u32,
+    pub min_match: u32,
+    pub segment_size: u32,
+    /// samples in archive order; contigs in order: (name, bases as codes, descriptors)
+    pub samples: Vec<(String, Vec<(String, Vec<u8>, Vec<Seg>)>)>,
+    pub stats: Stats,
+    pub directory: Vec<(String, usize)>, // stream name, number of parts
+}
+
+type R<T> = Result<T, String>;
+
+fn err<T>(s: impl Into<String>) -> R<T> {
+    Err(s.into())
+}
+
+// ---- container ----------------------------------------------------------------------------
+
+struct Part {
+    meta_off: usize,
+    size: usize,
+}
+struct Stream {
+    name: String,
+    parts: Vec<Part>,
+}
+
+/// length-prefixed big-endian integer: one byte n (0..8), then n bytes, most significant first
+fn lp_int(buf: &[u8], pos: &mut usize) -> R<u64> {
+    let n = *buf.get(*pos).ok_or("directory: integer runs past the end")? as usize;
+    *pos += 1;
+    if n > 8 {
+        return err(format!("directory: integer with {} bytes", n));
+    }
+    let mut v: u64 = 0;
+    for _ in 0..n {
+        let b = *buf.get(*pos).ok_or("directory: integer runs past the end")?;
+        *pos += 1;
+        v = (v << 8) | b as u64;
+    }
+    Ok(v)
+}
+
+fn parse_directory(file: &[u8]) -> R<Vec<Stream>> {
+    if file.len() < 8 {
+        return err("container: file shorter than the 8-byte footer length");
+    }
+    let flen = u64::from_le_bytes(file[file.len() - 8..].try_into().unwrap());
+    if flen > (file.len() - 8) as u64 {
+        return err("container: footer length larger than the file");
+    }
+    let fstart = file.len() - 8 - flen as usize;
+    let foot = &file[fstart..file.len() - 8];
+    let mut pos = 0usize;
+    let n = lp_int(foot, &mut pos)?;
+    let mut streams = Vec::new();
+    let mut spans: Vec<(usize, usize)> = Vec::new();
+    for _ in 0..n {
+        let end = foot[pos..].iter().position(|&b| b == 0).ok_or("directory: unterminated stream name")?;
+        let name = String::from_utf8(foot[pos..pos + end].to_vec()).map_err(|_| "directory: stream name is not UTF-8")?;
+        pos += end + 1;
+        let nparts = lp_int(foot, &mut pos)?;
+        let _raw = lp_int(foot, &mut pos)?;
+        let mut parts = Vec::new();
+        for _ in 0..nparts {
+            let off = lp_int(foot, &mut pos)? as usize;
+            let size = lp_int(foot, &mut pos)? as usize;
+            // a part is: length-prefixed metadata integer, then `size` data bytes
+            if off >= fstart {
+                return err(format!("directory: part of {:?} starts at {} beyond the data area ({})", name, off, fstart));
+            }
+            let mut p = off;
+            let _ = lp_int(&file[..fstart], &mut p).map_err(|_| format!("directory: part metadata of {:?} runs into the footer", name))?;
+            if p + size > fstart {
+                return err(format!("directory: part of {:?} at {}+{} runs into the footer", name, off, size));
+            }
+            spans.push((off, p + size));
+            parts.push(Part { meta_off: off, size });
+        }
+        streams.push(Stream { name, parts });
+    }
+    if pos != foot.len() {
+        return err(format!("directory: {} unread bytes at the end of the footer", foot.len() - pos));
+    }
+    spans.sort();
+    let mut prev_end = 0usize;
+    for (a, b) in &spans {
+        if *a < prev_end {
+            return err(format!("directory: parts overlap at offset {}", a));
+        }
+        prev_end = *b;
+    }
+    if prev_end != fstart && !spans.is_empty() {
+        return err(format!("directory: {} bytes between the last part and the footer are not described", fstart - prev_end));
+    }
+    Ok(streams)
+}
+
+fn read_part(file: &[u8], p: &Part) -> R<(u64, Vec<u8>)> {
+    let mut pos = p.meta_off;
+    let meta = lp_int(file, &mut pos)?;
+    Ok((meta, file[pos..pos + p.size].to_vec()))
+}
+
+// ---- collection ---------------------------------------------------------------------------
+
+/// prefix varint: 0xxxxxxx | 10xxxxxx +1 | 110xxxxx +2 | 1110xxxx +3 | 11110000 +4, with offsets
+fn pv(buf: &[u8], pos: &mut usize) -> R<u32> {
+    let b0 = *buf.get(*pos).ok_or("collection: varint past the end")? as u32;
+    let need = if b0 < 0x80 {
+        1
+    } else if b0 < 0xC0 {
+        2
+    } else if b0 < 0xE0 {
+        3
+    } else if b0 < 0xF0 {
+        4
+    } else {
+        5
+    };
+    if *pos + need > buf.len() {
+        return err("collection: varint past the end");
+    }
+    let b = &buf[*pos..*pos + need];
+    *pos += need;
+    let t1: u32 = 1 << 7;
+    let t2: u32 = t1 + (1 << 14);
+    let t3: u32 = t2 + (1 << 21);
+    let t4: u32 = t3 + (1 << 28);
+    Ok(match need {
+        1 => b0,
+        2 => (((b0 & 0x3F) << 8) | b[1] as u32) + t1,
+        3 => (((b0 & 0x1F) << 16) | (b[1] as u32) << 8 | b[2] as u32) + t2,
+        4 => (((b0 & 0x0F) << 24) | (b[1] as u32) << 16 | (b[2] as u32) << 8 | b[3] as u32) + t3,
+        _ => (((b[1] as u32) << 24) | (b[2] as u32) << 16 | (b[3] as u32) << 8 | b[4] as u32).wrapping_add(t4),
+    })
+}
+
+fn cstr<'a>(buf: &'a [u8], pos: &mut usize) -> R<&'a [u8]> {
+    let end = buf[*pos..].iter().position(|&b| b == 0).ok_or("collection: unterminated string")?;
+    let s = &buf[*pos..*pos + end];
+    *pos += end + 1;
+    Ok(s)
+}
+
+fn unzstd(data: &[u8], what: &str) -> R<Vec<u8>> {
+    zstd::decode_all(data).map_err(|e| format!("zstd: {}: {}", what, e))
+}
+
+/// in-group id / raw length predictor decoding
+fn unzig(v: u64, pred: u64) -> u64 {
+    if v >= 2 * pred {
+        v
+    } else if v & 1 == 1 {
+        (2 * pred - v) / 2
+    } else {
+        (v + 2 * pred) / 2
+    }
+}
+
+fn decode_names(buf: &[u8]) -> R<Vec<Vec<String>>> {
+    let mut pos = 0;
+    let ns = pv(buf, &mut pos)? as usize;
+    let mut out = Vec::new();
+    for _ in 0..ns {
+        let nc = pv(buf, &mut pos)? as usize;
+        let mut names: Vec<String> = Vec::new();
+        let mut prev: Vec<Vec<u8>> = Vec::new();
+        for ci in 0..nc {
+            let enc = cstr(buf, &mut pos)?;
+            let fields: Vec<Vec<u8>> = enc.split(|&b| b == b' ').map(|f| f.to_vec()).collect();
+            let cur: Vec<Vec<u8>> = if ci == 0 || fields.len() != prev.len() {
+                fields // full name
+            } else {
+                let mut c = Vec::new();
+                for (f, p) in fields.iter().zip(prev.iter()) {
+                    if f.len() == 1 && f[0] == 0x81 {
+                        c.push(p.clone()); // 0x81 = "same field as in the previous name"
+                    } else {
+                        let mut o = Vec::new();
+                        let mut pi = 0usize;
+                        for &b in f {
+                            if b < 0x80 {
+                                o.push(b);
+                                pi += 1;
+                            } else {
+                                let n = 256 - b as usize; // copy n characters from the previous field
+                                if pi + n > p.len() {
+                                    return err("collection: name delta copies past the previous field");
+                                }
+                                o.extend_from_slice(&p[pi..pi + n]);
+                                pi += n;
+                            }
+                        }
+                        c.push(o);
+                    }
+                }
+                c
+            };
+            names.push(String::from_utf8(cur.join(&b' ')).map_err(|_| "collection: contig name is not UTF-8")?);
+            prev = cur;
+        }
+        out.push(names);
+    }
+    if pos != buf.len() {
+        return err("collection: trailing bytes after the contig names");
+    }
+    Ok(out)
+}
+
+fn decode_details(part: &[u8], pred_len: u64) -> R<Vec<Vec<Vec<Seg>>>> {
+    let mut pos = 0;
+    let mut sizes = [(0usize, 0usize); 5];
+    for s in sizes.iter_mut() {
+        s.0 = pv(part, &mut pos)? as usize;
+        s.1 = pv(part, &mut pos)? as usize;
+    }
+    let mut st: Vec<Vec<u8>> = Vec::new();
+    for (i, s) in sizes.iter().enumerate() {
+        if pos + s.1 > part.len() {
+            return err("collection: details sub-stream past the end");
+        }
+        let d = unzstd(&part[pos..pos + s.1], "details sub-stream")?;
+        if d.len() != s.0 {
+            return err(format!("collection: details sub-stream {} has {} bytes, header says {}", i, d.len(), s.0));
+        }
+        st.push(d);
+        pos += s.1;
+    }
+    if pos != part.len() {
+        return err("collection: trailing bytes after the details sub-streams");
+    }
+    let mut p0 = 0;
+    let ns = pv(&st[0], &mut p0)? as usize;
+    let mut shape: Vec<Vec<usize>> = Vec::new();
+    for _ in 0..ns {
+        let nc = pv(&st[0], &mut p0)? as usize;
+        let mut v = Vec::new();
+        for _ in 0..nc {
+            v.push(pv(&st[0], &mut p0)? as usize);
+        }
+        shape.push(v);
+    }
+    let (mut p1, mut p2, mut p3, mut p4) = (0, 0, 0, 0);
+    let mut last: HashMap<u32, i64> = HashMap::new();
+    let mut out = Vec::new();
+    for contigs in shape {
+        let mut sv = Vec::new();
+        for nseg in contigs {
+            let mut segs = Vec::new();
+            for _ in 0..nseg {
+                let g = pv(&st[1], &mut p1)?;
+                let e = pv(&st[2], &mut p2)? as u64;
+                let l = pv(&st[3], &mut p3)? as u64;
+                let rc = pv(&st[4], &mut p4)? != 0;
+                let prev = last.get(&g).copied().unwrap_or(-1);
+                let id: u64 = if prev == -1 {
+                    e
+                } else if e == 0 {
+                    0
+                } else if e == 1 {
+                    (prev + 1) as u64
+                } else {
+                    unzig(e - 1, (prev + 1) as u64)
+                };
+                if id as i64 > prev && id > 0 {
+                    last.insert(g, id as i64);
+                }
+                segs.push(Seg { group: g, in_group: id as u32, rc, raw_len: unzig(l, pred_len) as u32 });
+            }
+            sv.push(segs);
+        }
+        out.push(sv);
+    }
+    if p0 != st[0].len() || p1 != st[1].len() || p2 != st[2].len() || p3 != st[3].len() || p4 != st[4].len() {
+        return err("collection: trailing bytes in a details sub-stream");
+    }
+    Ok(out)
+}
+
+// ---- segments -----------------------------------------------------------------------------
+
+fn b64(mut n: u32) -> String {
+    let mut s = String::new();
+    loop {
+        s.push(B64[(n & 63) as usize] as char);
+        n >>= 6;
+        if n == 0 {
+            break;
+        }
+    }
+    s
+}
+
+fn untuple(t: &[u8], stats: &mut Stats) -> R<Vec<u8>> {
+    let Some(&marker) = t.last() else { return Ok(Vec::new()) };
+    let width = (marker >> 4) as usize;
+    let rem = (marker & 15) as usize;
+    if width <= 4 {
+        stats.tuple_width[width] += 1;
+    }
+    let body = &t[..t.len() - 1];
+    let base: u32 = match width {
+        1 => return Ok(body.to_vec()),
+        2 => 16,
+        3 => 6,
+        4 => 4,
+        w => return err(format!("tuple: marker says {} symbols per byte", w)),
+    };
+    if body.is_empty() || rem >= width {
+        return err("tuple: malformed packed stream");
+    }
+    // all bytes but the last hold `width` symbols, the last holds `rem`
+    let mut out = Vec::with_capacity(body.len() * width);
+    for (i, &b) in body.iter().enumerate() {
+        let cnt = if i + 1 == body.len() { rem } else { width };
+        let mut tmp = [0u8; 4];
+        let mut v = b as u32;
+        for j in (0..cnt).rev() {
+            tmp[j] = (v % base) as u8;
+            v /= base;
+        }
+        out.extend_from_slice(&tmp[..cnt]);
+    }
+    Ok(out)
+}
+
+/// A stored part: metadata 0 = the bytes themselves; otherwise the last byte is a marker
+/// (0 = plain ZSTD, other = ZSTD of a tuple-packed stream) and metadata is the unpacked size.
+fn unpack_part(meta: u64, data: &[u8], stats: &mut Stats, is_ref: bool) -> R<Vec<u8>> {
+    if meta == 0 {
+        if is_ref {
+            stats.refs_stored_raw += 1;
+        } else {
+            stats.packs_stored_raw += 1;
+        }
+        return Ok(data.to_vec());
+    }
+    let Some((&marker, body)) = data.split_last() else { return err("part: non-zero metadata on an empty part") };
+    let z = unzstd(body, "segment part")?;
+    let out = if marker == 0 {
+        if is_ref {
+            stats.refs_plain_zstd += 1;
+        } else {
+            stats.packs_zstd += 1;
+        }
+        z
+    } else {
+        if is_ref {
+            stats.refs_tuple_packed += 1;
+        }
+        untuple(&z, stats)?
+    };
+    if out.len() as u64 != meta {
+        return err(format!("part: metadata {} is not the unpacked size {}", meta, out.len()));
+    }
+    Ok(out)
+}
+
+fn lz_decode(enc: &[u8], reference: &[u8], min_match: u32, stats: &mut Stats) -> R<Vec<u8>> {
+    let mut out = Vec::new();
+    let mut pred: i64 = 0;
+    let mut i = 0usize;
+    let int = |i: &mut usize| -> R<i64> {
+        let neg = enc.get(*i) == Some(&b'-');
+        if neg {
+            *i += 1;
+        }
+        let s = *i;
+        let mut v: i64 = 0;
+        while *i < enc.len() && enc[*i].is_ascii_digit() {
+            v = v * 10 + (enc[*i] - b'0') as i64;
+            *i += 1;
+        }
+        if *i == s {
+            return err("lz: number expected");
+        }
+        Ok(if neg { -v } else { v })
+    };
+    while i < enc.len() {
+        let c = enc[i];
+        if c == b'!' {
+            let b = *reference.get(pred as usize).ok_or("lz: '!' beyond the reference")?;
+            out.push(b);
+            pred += 1;
+            i += 1;
+            stats.lz_bangs += 1;
+        } else if (b'A'..=b'A' + 30).contains(&c) {
+            out.push(c - b'A');
+            pred += 1;
+            i += 1;
+            stats.lz_literals += 1;
+        } else if c == 30 {
+            i += 1;
+            let n = int(&mut i)?;
+            if enc.get(i) != Some(&4) {
+                return err("lz: N-run without terminator");
+            }
+            i += 1;
+            out.resize(out.len() + (n + 4) as usize, 4);
+            stats.lz_nruns += 1;
+        } else if c == b'-' || c.is_ascii_digit() {
+            let d = int(&mut i)?;
+            let pos = pred + d;
+            if pos < 0 || pos as usize > reference.len() {
+                return err("lz: match position outside the reference");
+            }
+            let pos = pos as usize;
+            let len = match enc.get(i) {
+                Some(b'.') => {
+                    i += 1;
+                    stats.lz_matches_to_end += 1;
+                    reference.len() - pos
+                }
+                Some(b',') => {
+                    i += 1;
+                    let l = int(&mut i)?;
+                    if enc.get(i) != Some(&b'.') {
+                        return err("lz: match without terminator");
+                    }
+                    i += 1;
+                    stats.lz_matches += 1;
+                    (l + min_match as i64) as usize
+                }
+                _ => return err("lz: ',' or '.' expected after a match position"),
+            };
+            if pos + len > reference.len() {
+                return err("lz: match runs past the reference");
+            }
+            out.extend_from_slice(&reference[pos..pos + len]);
+            pred = (pos + len) as i64;
+        } else {
+            return err(format!("lz: unexpected byte {} in the delta text", c));
+        }
+    }
+    Ok(out)
+}
+
+fn revcomp(s: &[u8]) -> Vec<u8> {
+    s.iter().rev().map(|&b| if b < 4 { 3 - b } else { b }).collect()
+}
+
+struct Groups<'a> {
+    file: &'a [u8],
+    by_name: HashMap<&'a str, &'a Stream>,
+    refs: HashMap<u32, Vec<u8>>,
+    packs: HashMap<(u32, usize), Vec<Vec<u8>>>,
+    min_match: u32,
+}
+
+impl<'a> Groups<'a> {
+    fn pack(&mut self, g: u32, idx: usize, stats: &mut Stats) -> R<&Vec<Vec<u8>>> {
+        if !self.packs.contains_key(&(g, idx)) {
+            let name = format!("x{}d", b64(g));
+            let st = self.by_name.get(name.as_str()).ok_or_else(|| format!("addressing: stream {} missing", name))?;
+            let p = st.parts.get(idx).ok_or_else(|| format!("addressing: {} has {} packs, pack {} needed", name, st.parts.len(), idx))?;
+            let (meta, data) = read_part(self.file, p)?;
+            let raw = unpack_part(meta, &data, stats, false)?;
+            if raw.last() != Some(&SEP) {
+                return err(format!("pack: pack {} of {} does not end with the separator", idx, name));
+            }
+            let entries: Vec<Vec<u8>> = raw[..raw.len() - 1].split(|&b| b == SEP).map(|e| e.to_vec()).collect();
+            if entries.len() > PACK {
+                return err(format!("pack: pack {} of {} has {} entries", idx, name, entries.len()));
+            }
+            if entries.len() == PACK {
+                stats.full_packs += 1;
+            }
+            if idx + 1 < st.parts.len() && entries.len() != PACK {
+                return err(format!("pack: pack {} of {} is not the last one but has {} entries", idx, name, entries.len()));
+            }
+            if g < RAW_GROUPS && idx == 0 {
+                if entries.first().map(|e| e.as_slice()) != Some(&[0x7f][..]) {
+                    return err(format!("pack: raw group {} does not start with the placeholder entry", g));
+                }
+                stats.placeholder_packs += 1;
+            }
+            self.packs.insert((g, idx), entries);
+        }
+        Ok(self.packs.get(&(g, idx)).unwrap())
+    }
+
+    fn reference(&mut self, g: u32, stats: &mut Stats) -> R<Vec<u8>> {
+        if let Some(r) = self.refs.get(&g) {
+            return Ok(r.clone());
+        }
+        let name = format!("x{}r", b64(g));
+        let st = self.by_name.get(name.as_str()).ok_or_else(|| format!("addressing: stream {} missing", name))?;
+        if st.parts.len() != 1 {
+            return err(format!("addressing: {} has {} parts, exactly one reference part expected", name, st.parts.len()));
+        }
+        let (meta, data) = read_part(self.file, &st.parts[0])?;
+        let r = unpack_part(meta, &data, stats, true)?;
+        stats.lz_groups += 1;
+        self.refs.insert(g, r.clone());
+        Ok(r)
+    }
+
+    fn segment(&mut self, s: &Seg, stats: &mut Stats) -> R<Vec<u8>> {
+        stats.segments += 1;
+        let fwd = if s.group < RAW_GROUPS {
+            stats.segments_raw += 1;
+            let id = s.in_group as usize;
+            let p = self.pack(s.group, id / PACK, stats)?;
+            p.get(id % PACK).cloned().ok_or_else(|| format!("addressing: raw group {} has no entry {}", s.group, id))?
+        } else if s.in_group == 0 {
+            stats.segments_ref += 1;
+            self.reference(s.group, stats)?
+        } else {
+            stats.segments_delta += 1;
+            let r = self.reference(s.group, stats)?;
+            let id = s.in_group as usize - 1;
+            let mm = self.min_match;
+            let p = self.pack(s.group, id / PACK, stats)?;
+            let e = p.get(id % PACK).cloned().ok_or_else(|| format!("addressing: group {} has no delta {}", s.group, s.in_group))?;
+            if e.is_empty() {
+                return err(format!("addressing: empty delta stored for group {} id {}", s.group, s.in_group));
+            }
+            lz_decode(&e, &r, mm, stats)?
+        };
+        if fwd.len() != s.raw_len as usize {
+            return err(format!(
+                "addressing: descriptor raw length {} but segment (group {}, id {}) decodes to {} bases",
+                s.raw_len,
+                s.group,
+                s.in_group,
+                fwd.len()
+            ));
+        }
+        if s.rc {
+            stats.segments_rc += 1;
+            Ok(revcomp(&fwd))
+        } else {
+            Ok(fwd)
+        }
+    }
+}
+
+pub fn decode_bytes(file: &[u8]) -> R<Decoded> {
+    let mut stats = Stats::default();
+    let streams = parse_directory(file)?;
+    stats.streams = streams.len() as u64;
+    stats.parts = streams.iter().map(|s| s.parts.len() as u64).sum();
+    let by_name: HashMap<&str, &Stream> = streams.iter().map(|s| (s.name.as_str(), s)).collect();
+    if by_name.len() != streams.len() {
+        return err("directory: duplicate stream name");
+    }
+    let one = |n: &str| -> R<(u64, Vec<u8>)> {
+        let s = by_name.get(n).ok_or_else(|| format!("streams: {} missing", n))?;
+        if s.parts.len() != 1 {
+            return err(format!("streams: {} has {} parts", n, s.parts.len()));
+        }
+        read_part(file, &s.parts[0])
+    };
+    // params: little-endian u32s: k, min match, pack cardinality, segment size
+    let (_, params) = one("params")?;
+    if params.len() < 16 {
+        return err("params: fewer than four 32-bit values");
+    }
+    let u = |i: usize| u32::from_le_bytes(params[4 * i..4 * i + 4].try_into().unwrap());
+    let (k, min_match, packc, segment_size) = (u(0), u(1), u(2), u(3));
+    if packc as usize != PACK {
+        return err(format!("params: pack cardinality {} (the layout is fixed at 50)", packc));
+    }
+    // sample names
+    let (meta, data) = one("collection-samples")?;
+    let names = unzstd(&data, "collection-samples")?;
+    if names.len() as u64 != meta {
+        return err("collection: collection-samples metadata is not the unpacked size");
+    }
+    let mut pos = 0;
+    let ns = pv(&names, &mut pos)? as usize;
+    let mut sample_names = Vec::new();
+    for _ in 0..ns {
+        sample_names.push(String::from_utf8(cstr(&names, &mut pos)?.to_vec()).map_err(|_| "collection: sample name is not UTF-8")?);
+    }
+    // contig names + details, one part per batch of samples
+    let cs = by_name.get("collection-contigs").ok_or("streams: collection-contigs missing")?;
+    let ds = by_name.get("collection-details").ok_or("streams: collection-details missing")?;
+    if cs.parts.len() != ds.parts.len() {
+        return err("collection: contig-name and detail batches differ in number");
+    }
+    stats.metadata_batches = cs.parts.len() as u64;
+    let mut contig_names: Vec<Vec<String>> = Vec::new();
+    let mut details: Vec<Vec<Vec<Seg>>> = Vec::new();
+    for (cp, dp) in cs.parts.iter().zip(ds.parts.iter()) {
+        let (m, d) = read_part(file, cp)?;
+        let raw = unzstd(&d, "collection-contigs")?;
+        if raw.len() as u64 != m {
+            return err("collection: collection-contigs metadata is not the unpacked size");
+        }
+        let n = decode_names(&raw)?;
+        let (_, d) = read_part(file, dp)?;
+        let det = decode_details(&d, (segment_size + k) as u64)?;
+        if n.len() != det.len() {
+            return err("collection: a batch has different sample counts in names and details");
+        }
+        if n.len() > PACK {
+            return err("collection: a metadata batch holds more than 50 samples");
+        }
+        contig_names.extend(n);
+        details.extend(det);
+    }
+    if contig_names.len() != sample_names.len() {
+        return err(format!("collection: {} samples named, {} described", sample_names.len(), contig_names.len()));
+    }
+    let mut groups = Groups { file, by_name, refs: HashMap::new(), packs: HashMap::new(), min_match };
+    let mut samples = Vec::new();
+    let mut raw_used: BTreeMap<u32, ()> = BTreeMap::new();
+    for ((sname, cnames), cdet) in sample_names.into_iter().zip(contig_names).zip(details) {
+        if cnames.len() != cdet.len() {
+            return err(format!("collection: sample {:?} has {} names but {} descriptor lists", sname, cnames.len(), cdet.len()));
+        }
+        let mut contigs = Vec::new();
+        for (cname, segs) in cnames.into_iter().zip(cdet) {
+            let mut bases: Vec<u8> = Vec::new();
+            for (i, s) in segs.iter().enumerate() {
+                if s.group < RAW_GROUPS {
+                    raw_used.insert(s.group, ());
+                }
+                let d = groups.segment(s, &mut stats)?;
+                if i == 0 {
+                    bases = d;
+                } else {
+                    if d.len() < k as usize {
+                        return err(format!("contig: segment {} of {:?} is shorter than k", i, cname));
+                    }
+                    if bases.len() < k as usize || bases[bases.len() - k as usize..] != d[..k as usize] {
+                        return err(format!("contig: segment {} of {:?} does not overlap the previous one by k bases", i, cname));
+                    }
+                    bases.extend_from_slice(&d[k as usize..]);
+                }
+            }
+            contigs.push((cname, bases, segs));
+        }
+        samples.push((sname, contigs));
+    }
+    stats.raw_groups_used = raw_used.len() as u64;
+    let directory = streams.iter().map(|s| (s.name.clone(), s.parts.len())).collect();
+    Ok(Decoded { k, min_match, segment_size, samples, stats, directory })
+}
+
+pub fn decode_file(path: &str) -> R<Decoded> {
+    let file = std::fs::read(path).map_err(|e| format!("io: {}", e))?;
+    decode_bytes(&file)
+}
